@@ -24,6 +24,10 @@ var c14Toggles = []string{
 	"sc-author", "sc-author-person", "sc-rel-author", "sc-date", "sc-section", "sc-year", "sc-holder", "sc-imageobject", "sc-second-item",
 	// IE reading view
 	"ie-no-title", "ie-copyright", "ie-byline", "ie-dateline", "ie-displaydate", "ie-publisher", "ie-figure", "ie-metas-in-body", "sc-rel-author-empty-first",
+	// OpenGraph namespace declarations under non-default names
+	"og-prefix-attr-html", "og-prefix-attr-head", "og-xmlns",
+	// schema.org values given as text in elements whose value normally lives in an attribute
+	"sc-author-a-text", "sc-publisher-data-text",
 }
 
 var c14Orders = [][3]string{{"og", "sc", "ie"}, {"og", "ie", "sc"}, {"sc", "og", "ie"}, {"sc", "ie", "og"}, {"ie", "og", "sc"}, {"ie", "sc", "og"}}
@@ -44,6 +48,22 @@ func c14Doc(cf *c14Cfg) string {
 	head := map[string]string{}
 	body := map[string]string{}
 	// --- OpenGraph
+	// namespace prefixes: declared under other names by a prefix attribute (on html or head) or by
+	// legacy xmlns attributes; the properties then use those names
+	pOG, pArt, pProf := "og", "article", "profile"
+	htmlOpen, headOpen := "<html>", "<head>"
+	const nsDecl = "ogx: http://ogp.me/ns# artx: http://ogp.me/ns/article# profx: http://ogp.me/ns/profile#"
+	switch {
+	case on("og-prefix-attr-html"):
+		pOG, pArt, pProf = "ogx", "artx", "profx"
+		htmlOpen = "<html lang=\"en\" prefix=\"" + nsDecl + "\">"
+	case on("og-prefix-attr-head"):
+		pOG, pArt, pProf = "ogx", "artx", "profx"
+		headOpen = "<head prefix=\"" + nsDecl + "\">"
+	case on("og-xmlns"):
+		pOG, pArt, pProf = "ogx", "artx", "profx"
+		htmlOpen = "<html xmlns:ogx=\"http://ogp.me/ns#\" lang=\"en\" xmlns:artx=\"http://ogp.me/ns/article#\" xmlns:profx=\"http://ogp.me/ns/profile#\">"
+	}
 	{
 		var sb strings.Builder
 		typ := "article"
@@ -54,43 +74,43 @@ func c14Doc(cf *c14Cfg) string {
 		}
 		if on("og-modified-early") {
 			// an article property that precedes og:type (it is dropped: the type is not known yet)
-			sb.WriteString(meta("property", "article:modified_time", "OGmodifiedEarly"))
+			sb.WriteString(meta("property", pArt+":modified_time", "OGmodifiedEarly"))
 		}
 		if !on("og-no-type") {
-			sb.WriteString(meta("property", "og:type", typ))
+			sb.WriteString(meta("property", pOG+":type", typ))
 		}
 		if !on("og-no-title") {
-			sb.WriteString(meta("property", "og:title", "OGtitle"))
+			sb.WriteString(meta("property", pOG+":title", "OGtitle"))
 		}
 		if !on("og-no-url") {
-			sb.WriteString(meta("property", "og:url", "http://og.example/OGurl"))
+			sb.WriteString(meta("property", pOG+":url", "http://og.example/OGurl"))
 		}
 		if !on("og-no-image") {
-			sb.WriteString(meta("property", "og:image", "http://og.example/OGimage.jpg"))
+			sb.WriteString(meta("property", pOG+":image", "http://og.example/OGimage.jpg"))
 		}
 		if on("og-image2") {
-			sb.WriteString(meta("property", "og:image", "http://og.example/OGimage2.jpg") + meta("property", "og:image:width", "640"))
+			sb.WriteString(meta("property", pOG+":image", "http://og.example/OGimage2.jpg") + meta("property", pOG+":image:width", "640"))
 		}
 		if on("og-description") {
-			sb.WriteString(meta("property", "og:description", "OGdescription"))
+			sb.WriteString(meta("property", pOG+":description", "OGdescription"))
 		}
 		if on("og-site_name") {
-			sb.WriteString(meta("property", "og:site_name", "OGsite"))
+			sb.WriteString(meta("property", pOG+":site_name", "OGsite"))
 		}
 		if on("og-section") {
-			sb.WriteString(meta("property", "article:section", "OGsection"))
+			sb.WriteString(meta("property", pArt+":section", "OGsection"))
 		}
 		if on("og-published") {
-			sb.WriteString(meta("property", "article:published_time", "OGpublished"))
+			sb.WriteString(meta("property", pArt+":published_time", "OGpublished"))
 		}
 		if on("og-author") {
-			sb.WriteString(meta("property", "article:author", "OGauthor"))
+			sb.WriteString(meta("property", pArt+":author", "OGauthor"))
 		}
 		if on("og-first") {
-			sb.WriteString(meta("property", "profile:first_name", "OGfirst"))
+			sb.WriteString(meta("property", pProf+":first_name", "OGfirst"))
 		}
 		if on("og-last") {
-			sb.WriteString(meta("property", "profile:last_name", "OGlast"))
+			sb.WriteString(meta("property", pProf+":last_name", "OGlast"))
 		}
 		head["og"] = sb.String()
 	}
@@ -122,6 +142,13 @@ func c14Doc(cf *c14Cfg) string {
 			}
 			if on("sc-author") {
 				sb.WriteString("<span itemprop=\"author\">SCauthor" + suffix + "</span>")
+			}
+			if on("sc-author-a-text") {
+				// an element whose value normally lives in an attribute (href), given as text only
+				sb.WriteString("<a itemprop=\"author\">SCauthorA" + suffix + "</a>")
+			}
+			if on("sc-publisher-data-text") {
+				sb.WriteString("<data itemprop=\"publisher\">SCpublisherD" + suffix + "</data>")
 			}
 			if on("sc-author-person") {
 				sb.WriteString("<div itemprop=\"author\" itemscope itemtype=\"http://schema.org/Person\"><span itemprop=\"name\">SCpersonname" + suffix + "</span></div>")
@@ -205,9 +232,9 @@ func c14Doc(cf *c14Cfg) string {
 		if cf.only == "" || cf.only == "ie" {
 			ieBlock = head["ie"]
 		}
-		return "<html><head><title>" + ora.DefaultTitle + "</title>" + hsNoIE + "</head><body>" + ieBlock + opt + "<div class=\"main\"><p>" + t.W(21) + "</p>" + bs.String() + "<p>" + t.W(22) + "</p><p>" + t.W(23) + "</p></div></body></html>"
+		return htmlOpen + headOpen + "<title>" + ora.DefaultTitle + "</title>" + hsNoIE + "</head><body>" + ieBlock + opt + "<div class=\"main\"><p>" + t.W(21) + "</p>" + bs.String() + "<p>" + t.W(22) + "</p><p>" + t.W(23) + "</p></div></body></html>"
 	}
-	return "<html><head><title>" + ora.DefaultTitle + "</title>" + hs.String() + opt + "</head><body><div class=\"main\"><p>" + t.W(21) + "</p>" + bs.String() + "<p>" + t.W(22) + "</p><p>" + t.W(23) + "</p></div></body></html>"
+	return htmlOpen + headOpen + "<title>" + ora.DefaultTitle + "</title>" + hs.String() + opt + "</head><body><div class=\"main\"><p>" + t.W(21) + "</p>" + bs.String() + "<p>" + t.W(22) + "</p><p>" + t.W(23) + "</p></div></body></html>"
 }
 
 func c14Enumerate(tier string, emit func(*eng.Case)) {
@@ -379,6 +406,8 @@ func c14Check(c *eng.Case) *eng.Outcome {
 		add("Publisher", "sc", "SCholder", item && on("sc-holder") && !on("sc-publisher") && !on("sc-publisher-org"))
 		add("Author", "sc", "SCauthor", item && on("sc-author"))
 		add("Author", "sc", "SCpersonname", item && on("sc-author-person"))
+		add("Author", "sc", "SCauthorA", item && on("sc-author-a-text"))
+		add("Publisher", "sc", "SCpublisherD", item && on("sc-publisher-data-text"))
 		add("Author", "sc", "SCrelauthor", on("sc-rel-author") && !(item && (on("sc-author") || on("sc-author-person"))))
 		add("Title", "ie", "IEtitle", !on("ie-no-title"))
 		add("Publisher", "ie", "IEpublisher", on("ie-publisher"))
@@ -492,7 +521,7 @@ func init() {
 	eng.Register(&eng.Prop{
 		ID:        "C14",
 		DesignRef: "§5 C14",
-		Rule: "base page with all three sources (qualified OpenGraph article, schema.org Article item with headline, IE tags with title); every set of <= 3 (quick) / <= 4 (thorough) of 41 feature toggles (drop a required OG property, OG type profile/website, OG optional/article/profile properties, second image, an article property placed before og:type; schema.org item absent, name/url/description/image/publisher string|Organization/author string|Person/rel=author/date/section/copyright year+holder/ImageObject/second item; IE title absent, copyright, byline, dateline, displaydate, publisher attribute, captioned figure, the IE and opt-out meta tags placed in <body>; an empty rel=author element before the real one), " +
+		Rule: "base page with all three sources (qualified OpenGraph article, schema.org Article item with headline, IE tags with title); every set of <= 3 (quick) / <= 4 (thorough) of 46 feature toggles (schema.org values given as the text of an <a> without href or a <data> without value; OpenGraph namespaces declared under other names by a prefix attribute on html or on head or by legacy xmlns attributes; drop a required OG property, OG type profile/website, OG optional/article/profile properties, second image, an article property placed before og:type; schema.org item absent, name/url/description/image/publisher string|Organization/author string|Person/rel=author/date/section/copyright year+holder/ImageObject/second item; IE title absent, copyright, byline, dateline, displaydate, publisher attribute, captioned figure, the IE and opt-out meta tags placed in <body>; an empty rel=author element before the real one), " +
 			"with all 6 block orders x opt-out {absent,true,false} for sets of <= 2 (quick) / <= 3 (thorough) toggles and 2 orders otherwise; every value is a token naming source and field. Oracle: opt-out => zero MarkupInfo; otherwise each scalar field = first non-empty of the values the sources yield alone (4 executions per case: full, OG only, schema.org only, IE only), Images wholesale from the first non-empty source, Article wholesale from the first source that has a record, an unqualified OpenGraph block yields nothing, and - directly from the tokens - each scalar field holds the token of the highest-precedence source whose markup offers it (judged when no source offers the field in two ways). " +
 			"Non-trivial = two sources supply different values for a field (or two have an article record), or OpenGraph is disqualified.",
 		Enumerate: c14Enumerate,
